@@ -86,10 +86,19 @@ def run(rep, tier, root=None):
         rep.files_analysed.add(f.module.relpath)
         return f
 
+    from ..common import origin_guard
+    at_origin = {}          # function -> how it is made evaluable at r = 0: ("guard", value) / ("epsilon", shift) / None
+
     def one(f, args):
+        n_eps = len(I.eps_guards)
         v = merged_paths(I, f, args)
         if not isinstance(v, Rat):
             raise AnalysisError("%s: does not return an arithmetic value" % f.fq)
+        away, v0 = origin_guard(v, args[0])
+        if v0 is not None:
+            at_origin[f.fq] = ("guard", v0)
+            return away
+        at_origin[f.fq] = ("epsilon", I.eps_guards[n_eps]) if len(I.eps_guards) > n_eps else None
         return v
 
     fC = F("aotools.turbulence.turb", "phase_covariance")
@@ -172,6 +181,20 @@ def run(rep, tier, root=None):
             rep.check(d0.equals(Rat.const(0), 1e-12) or _relzero(d0, d["c0"]), "V2.zero-at-origin", f.fq + ": D(0) == 0",
                       "D(0) = %s (constant term and small-argument limit of the Bessel term do not cancel)" % nf(d0), f.where(),
                       note="limit uses x^v K_v(x) -> 2^(v-1) Gamma(v)")
+        # ... and the function can actually be evaluated there: x^(5/6) K_5/6(x) is 0 * infinity = nan in floating point at
+        # exactly r = 0, so the value at the origin has to be supplied (the limit, 0) or the argument kept off 0
+        how = at_origin.get(f.fq)
+        if how is None:
+            rep.violation("V2.evaluable-at-origin", f.fq + ": D(0) is computed, not nan",
+                          "at r = 0 the closed form multiplies (r/L0)^(5/6) = 0 by K_5/6(0) = infinity: the result is nan, not the 0 the "
+                          "structure function has at zero separation (every array of separations containing an exact 0 - the diagonal of "
+                          "a distance matrix, theta = 0 in the Karhunen-Loeve kernel - gets a nan there)", f.where())
+        elif how[0] == "guard":
+            rep.check(isinstance(how[1], Rat) and how[1].is_zero(), "V2.evaluable-at-origin", f.fq + ": D(0) is computed, not nan",
+                      "the value supplied at r = 0 is %s, not the limit 0 of the closed form" % nf(how[1]), f.where(),
+                      note="value at r == 0 supplied explicitly (where / piecewise)")
+        else:
+            rep.ok("V2.evaluable-at-origin", f.fq + ": D(0) is computed, not nan", "the separation is shifted by %g before the Bessel term" % how[1])
         # saturation value and its r0/L0 dependence
         sat = Rat.const(d["c0"]) * d["m0"]
         want_m = rpow(L0, Fr(5, 3)) * (rpow(r0, Fr(-5, 3)) if f is fD else Rat.const(1))
